@@ -10,9 +10,10 @@ import (
 type AxisCase struct {
 	D     *Desc  `json:"desc"`
 	Steps []Step `json:"steps"`
+	Logs  bool   `json:"logs,omitempty"` // run the device with its logging enabled
 }
 
-func (c *AxisCase) keyCase() *KeyCase { return &KeyCase{D: c.D, Steps: c.Steps, NoLogs: true} }
+func (c *AxisCase) keyCase() *KeyCase { return &KeyCase{D: c.D, Steps: c.Steps, NoLogs: !c.Logs} }
 
 // ---------------------------------------------------------------- C06
 
